@@ -127,7 +127,7 @@ pub enum Token {
 
 impl Token {
     pub fn width(&self) -> usize {
-        self.to_string().len()
+        self.to_string().chars().count()
     }
 
     /// Position of the caret after this token if it starts at `start`.
@@ -139,9 +139,9 @@ impl Token {
         match text.rsplit_once('\n') {
             Some((before, last)) => CaretPos::new(
                 start.line + before.matches('\n').count() + 1,
-                last.len() + 1,
+                last.chars().count() + 1,
             ),
-            None => start.offset_pos(text.len()),
+            None => start.offset_pos(text.chars().count()),
         }
     }
 
